@@ -34,7 +34,7 @@ namespace
         auto l = left.data<d_boolean, bool>();
         if (l)
         {
-            frame f(runtime.default_value_scope(), right.data<d_code, instruction_set>());
+            frame f(runtime.current_value_scope(), right.data<d_code, instruction_set>());
             runtime.context_active().push_frame(f);
             return {};
         }
@@ -52,7 +52,7 @@ namespace
         }
         else
         {
-            frame f(runtime.default_value_scope(), right.data<d_code, instruction_set>());
+            frame f(runtime.current_value_scope(), right.data<d_code, instruction_set>());
             runtime.context_active().push_frame(f);
             return {};
         }
